@@ -1,4 +1,5 @@
 import RF.Lemmas.Lists
+import RF.Model.ListsItemize
 /-!
 # The list machinery (`src/lists.rs`): what `write_list` emits and how `definitive_tactic` decides
 
@@ -479,5 +480,152 @@ example : Plain (ListItem.fromStr "aaa".toList) := ⟨rfl, rfl, _, rfl, by decid
 /-- One column less and `definitive_tactic` refuses the horizontal layout: the bound is tight. -/
 example : definitiveTactic [ListItem.fromStr "aaa".toList, ListItem.fromStr "bbb".toList]
     .horizontalVertical .comma 7 = .vertical ∧ strWidth "aaa, bbb".toList = 8 := by decide
+
+/-! ## The itemizing half: `ListItems::next` (C01 / C03 mechanism)
+
+`itemize` (`RF/Model/ListsItemize.lean`) is the iterator that cuts the source text of a list into items and
+the comments around them; tied to the code by the correspondence `lists.itemize`. -/
+
+/-- The item a source element becomes: `leave_last` replaces the last one by `Err`. -/
+def expectedItems (leaveLast : Bool) : List SourceItem → List (Option (List Char))
+  | [] => []
+  | src :: rest =>
+    (if rest.isEmpty && leaveLast then none else src.itemString) :: expectedItems leaveLast rest
+
+/-- **Itemizing keeps the items.**  Whenever the iterator runs to the end, it yields exactly one
+`ListItem` per list element, in order, carrying that element's rewritten string (the last one `Err` under
+`leave_last`): no element is dropped, duplicated or reordered, whatever stands in the gaps. -/
+theorem itemize_items_in_order (separator terminator : List Char) (leaveLast : Bool) :
+    ∀ (src : List SourceItem) (firstPre : List Char) (items : List ListItem),
+      itemize separator terminator leaveLast firstPre src = some items →
+      items.map (·.item) = expectedItems leaveLast src := by
+  intro src
+  induction src with
+  | nil =>
+    intro firstPre items h
+    simp only [itemize, itemizeGo, Option.some.injEq] at h
+    subst h
+    rfl
+  | cons s rest ih =>
+    intro firstPre items h
+    simp only [itemize, itemizeGo] at h
+    split at h
+    · rename_i pc pcs ce _ _
+      split at h
+      · rename_i nl post _ _
+        split at h
+        · rename_i its hrec
+          simp only [Option.some.injEq] at h
+          subst h
+          have := ih _ _ hrec
+          simp [expectedItems, this]
+        · simp at h
+      · simp at h
+    · simp at h
+
+/-- What `ListItems::next` computes for one element from its pre-snippet and its post-snippet. -/
+def NextOK (separator terminator : List Char) (leaveLast isLast : Bool) (pre : List Char)
+    (src : SourceItem) (item : ListItem) (commentEnd : Nat) : Prop :=
+  getCommentEnd src.postSnippet separator terminator isLast = some commentEnd ∧
+  extractPreComment pre = some (item.preComment, item.preCommentStyle) ∧
+  extractPostComment src.postSnippet commentEnd separator isLast = some item.postComment ∧
+  hasExtraNewline src.postSnippet commentEnd = some item.newLines ∧
+  item.item = (if isLast && leaveLast then none else src.itemString)
+
+/-- The whole run: every element is processed with the pre-snippet that the previous element left. -/
+inductive ItemizeOK (separator terminator : List Char) (leaveLast : Bool) :
+    List Char → List SourceItem → List ListItem → Prop where
+  | nil (pre : List Char) : ItemizeOK separator terminator leaveLast pre [] []
+  | cons {pre : List Char} {src : SourceItem} {rest : List SourceItem} {item : ListItem}
+      {items : List ListItem} (commentEnd : Nat) :
+      NextOK separator terminator leaveLast rest.isEmpty pre src item commentEnd →
+      ItemizeOK separator terminator leaveLast (src.postSnippet.drop commentEnd) rest items →
+      ItemizeOK separator terminator leaveLast pre (src :: rest) (item :: items)
+
+/-- **The gaps are partitioned.**  The text after an element is split at `comment_end` into the part the
+element's post-comment is taken from (`post_snippet[..comment_end]`) and the pre-snippet of the next element
+(`post_snippet[comment_end..]`): the iterator looks at every character of every gap exactly once, as part
+of exactly one of the two snippets (`take n l ++ drop n l = l`).  What each snippet becomes is decided by
+`extract_post_comment` and `extract_pre_comment` alone. -/
+theorem itemize_partitions_gaps (separator terminator : List Char) (leaveLast : Bool) :
+    ∀ (src : List SourceItem) (firstPre : List Char) (items : List ListItem),
+      itemize separator terminator leaveLast firstPre src = some items →
+      ItemizeOK separator terminator leaveLast firstPre src items := by
+  intro src
+  induction src with
+  | nil =>
+    intro firstPre items h
+    simp only [itemize, itemizeGo, Option.some.injEq] at h
+    subst h
+    exact .nil _
+  | cons s rest ih =>
+    intro firstPre items h
+    simp only [itemize, itemizeGo] at h
+    split at h
+    · rename_i pc pcs ce hpre hce
+      split at h
+      · rename_i nl post hnl hpost
+        split at h
+        · rename_i its hrec
+          simp only [Option.some.injEq] at h
+          subst h
+          exact .cons ce ⟨hce, hpre, hpost, hnl, rfl⟩ (ih _ _ hrec)
+        · simp at h
+      · simp at h
+    · simp at h
+
+/-- **A pre-comment is taken whole or not at all.**  `extract_pre_comment` returns the trimmed pre-snippet
+when it starts with `//` or `/*` or ends with `*/`, and nothing otherwise; it never returns a part of it. -/
+theorem extractPreComment_all_or_nothing (pre : List Char) (c : Option (List Char))
+    (st : ListItemCommentStyle) (h : extractPreComment pre = some (c, st)) :
+    (c = some (trim pre) ∧ (startsWith "//".toList (trim pre) = true ∨
+        startsWith "/*".toList (trim pre) = true ∨ endsWith "*/".toList (trim pre) = true)) ∨
+    (c = none ∧ st = .none ∧ startsWith "//".toList (trim pre) = false ∧
+        startsWith "/*".toList (trim pre) = false ∧ endsWith "*/".toList (trim pre) = false) := by
+  unfold extractPreComment at h
+  simp only at h
+  split at h
+  · rename_i he
+    split at h
+    · simp at h
+    · split at h
+      · simp only [Option.some.injEq, Prod.mk.injEq] at h
+        obtain ⟨rfl, _⟩ := h
+        exact Or.inl ⟨rfl, Or.inr (Or.inr he)⟩
+      · simp only [Option.some.injEq, Prod.mk.injEq] at h
+        obtain ⟨rfl, _⟩ := h
+        exact Or.inl ⟨rfl, Or.inr (Or.inr he)⟩
+  · rename_i he
+    split at h
+    · rename_i hs
+      simp only [Option.some.injEq, Prod.mk.injEq] at h
+      obtain ⟨rfl, _⟩ := h
+      simp only [Bool.or_eq_true] at hs
+      rcases hs with hs | hs
+      · exact Or.inl ⟨rfl, Or.inl hs⟩
+      · exact Or.inl ⟨rfl, Or.inr (Or.inl hs)⟩
+    · rename_i hs
+      simp only [Option.some.injEq, Prod.mk.injEq] at h
+      obtain ⟨rfl, rfl⟩ := h
+      simp only [Bool.or_eq_true, not_or, Bool.not_eq_true] at hs he
+      exact Or.inr ⟨rfl, rfl, hs.1, hs.2, he⟩
+
+example : extractPreComment " /* a */ ".toList = some (some "/* a */".toList, .sameLine) := by decide
+example : extractPreComment " /* a */\n ".toList = some (some "/* a */".toList, .differentLine) := by decide
+example : extractPreComment " , ".toList = some (none, .none) := by decide
+
+/-- "The post-comment is the comment text of the snippet" is FALSE of the code (known finding LW1, probe in
+`harness/src/lists_corr.rs`, reproduced on the binary: `b: u32 /* y */ // last,` as the last parameter comes
+out as `b: u32, /* y */ // last`): for the last element, a line comment whose text ends with the
+separator, behind a block comment, loses that character: lists.rs:644-647 tests `ends_with(separator)` on
+the text of the snippet, not on its code. -/
+theorem extractPostComment_strips_comment_char_counterexample :
+    extractPostComment " /* y */ // last,\n".toList 18 [','] true = some (some "/* y */ // last".toList) ∧
+    commentContent " /* y */ // last,\n".toList = "/*y*///last,".toList := by
+  constructor <;> decide
+
+example : itemize [','] [')'] false [] [⟨some "a".toList, ", // one\n    ".toList⟩, ⟨some "b".toList, " /* two */\n".toList⟩]
+    = some [⟨none, .none, some "a".toList, some "// one".toList, false⟩,
+            ⟨none, .none, some "b".toList, some "/* two */".toList, false⟩] := by decide
 
 end RF.Props.Lists
